@@ -22,6 +22,7 @@ type c19Base struct {
 	Target            string     // "root" | "sub"
 	Values            core.Manip // all six values; a subset mask selects which are applied
 	Profile           bool       `json:",omitempty"` // both entities reference a (validity-only) profile, so that merging runs
+	SubCSR            bool       `json:",omitempty"` // the subordinate's artifact holds a certificate request (for SubKey's public key) and no private key
 }
 
 type c19Case struct {
@@ -73,7 +74,19 @@ func c19World(b c19Base, mask int) World {
 		root.Profile, sub.Profile = "c19 profile", "c19 profile"
 	}
 	w.Ents, w.Files = []core.Entity{root, sub}, map[string][]byte{"root.pem": core.PemBlock("PRIVATE KEY", b.RootKey), "sub.pem": core.PemBlock("PRIVATE KEY", b.SubKey)}
+	if b.SubCSR {
+		if k, err := xref.ParsePKCS8(b.SubKey); err == nil {
+			w.Files["sub.pem"] = core.PemBlock("CERTIFICATE REQUEST", buildCSR(der.Seq(der.Set(der.Seq(der.MustOID("2.5.4.3"), der.UTF8("C19 requester")))), spkiOfKey(k)))
+		}
+	}
 	return w
+}
+
+func spkiOfKey(k *xref.Key) []byte {
+	if k.Kind == "ec" {
+		return der.Seq(der.Seq(der.MustOID(xref.OIDEC), der.MustOID(k.Curve.OID)), der.BitStr(k.PublicBits(), 0))
+	}
+	return der.Seq(der.Seq(der.MustOID(xref.OIDRSA), der.Null()), der.BitStr(k.PublicBits(), 0))
 }
 
 func c19Run(w *World) (map[string]*decoded, *core.Failure) {
@@ -101,7 +114,7 @@ func c19RunOn(w *World, d *core.Dir) (map[string]*decoded, *core.Failure) {
 	out := map[string]*decoded{}
 	for i := range w.Ents {
 		dec, err := readEntity(d, &w.Ents[i])
-		if err != nil || dec.Cert == nil || dec.Key == nil {
+		if err != nil || dec.Cert == nil || (dec.Key == nil && dec.CSR == nil) {
 			return nil, core.Failf("C19/unreadable", "%s: %v", w.Ents[i].File, err)
 		}
 		out[w.Ents[i].EffAlias()] = dec
@@ -120,12 +133,23 @@ func pubOfKey(k *xref.Key) *xref.PubKey {
 func checkC19(c c19Case) *core.Failure {
 	wb := c19World(c.B, 0)
 	wm := c19World(c.B, c.Mask)
-	base, f := c19Run(&wb)
+	base, db, f := c19RunDir(&wb, nil)
 	if f != nil {
 		f.Sig = "C19/base-" + f.Sig[4:]
 		return f
 	}
-	man, dm, f := c19RunDir(&wm, nil)
+	var dm *core.Dir
+	outerOnly := c.Mask != 0 && c.Mask&(1|8|16|32) == 0
+	if outerOnly {
+		// outer manipulations are added to a configuration whose (unmanipulated) certificate exists already: the new
+		// certificate has the very same to-be-signed bytes as the old one, and still it is the manipulated one that must be there
+		dm = db.Clone()
+		dm.Tick(5)
+		for i := range wm.Ents {
+			dm.Put(wm.Ents[i].File, wm.Ents[i].Render())
+		}
+	}
+	man, dm, f := c19RunDir(&wm, dm)
 	if f != nil {
 		return f
 	}
@@ -144,7 +168,7 @@ func checkC19(c c19Case) *core.Failure {
 		}
 	}
 	// taking the manipulations out of the configuration again gives the plain certificate back
-	if c.Mask != 0 && c.Mask%4 == 1 {
+	if c.Mask != 0 && (c.Mask%4 == 1 || outerOnly) {
 		for i := range wb.Ents {
 			dm.Put(wb.Ents[i].File, wb.Ents[i].Render())
 		}
@@ -155,6 +179,9 @@ func checkC19(c c19Case) *core.Failure {
 		}
 		for _, alias := range []string{"root", "sub"} {
 			p, b := plain[alias].Cert, base[alias].Cert
+			if err := xref.VerifySig(pubOfKey(plain["root"].Key), xref.SigAlgByName(effSigAlg(wb.Ent(alias))), p.TBSRaw, p.SigBits); err != nil {
+				return core.Failf("C19/manipulation-sticks", "%s: after the manipulations were removed from the configuration and the entity regenerated, the signature does not verify: %v (mask %06b)", alias, err, c.Mask)
+			}
 			if p.Version != b.Version || !bytes.Equal(p.SPKIRaw, b.SPKIRaw) || !bytes.Equal(p.InnerSig.Raw, b.InnerSig.Raw) || !bytes.Equal(p.OuterSig.Raw, b.OuterSig.Raw) {
 				return core.Failf("C19/manipulation-sticks", "%s: after the manipulations were removed from the configuration and the entity regenerated, version/public key/algorithms still differ from the unmanipulated certificate (mask %06b)", alias, c.Mask)
 			}
@@ -265,6 +292,10 @@ func genC19Base(t *rapid.T) c19Base {
 	b.SubSig = rapid.SampledFrom(fittingSigAlgs(keyKind(b.RootAlg))).Draw(t, "subsig")
 	b.Target = rapid.SampledFrom([]string{"root", "sub"}).Draw(t, "target")
 	b.Profile = rapid.Bool().Draw(t, "profile")
+	b.SubCSR = rapid.IntRange(0, 3).Draw(t, "sub-request-based") == 0
+	if b.SubCSR && rapid.IntRange(0, 3).Draw(t, "sub-request-target") != 0 {
+		b.Target = "sub"
+	}
 	kinds := []string{core.KSKI, core.KAKI, core.KKU, core.KBC, core.KSAN, core.KCUSTOM, core.KEKU}
 	b.RootExts = append([]core.Extension{{Kind: core.KSKI, HasContent: true, SKI: "hash"}, {Kind: core.KAKI, HasContent: true, AKI: "hash"}}, genExtList(t, "rx", kinds, 3, 1200)...)
 	b.SubExts = append([]core.Extension{{Kind: core.KAKI, HasContent: true, AKI: "hash"}, {Kind: core.KSKI, HasContent: true, SKI: "hash"}}, genExtList(t, "sx", kinds, 3, 1200)...)
@@ -286,7 +317,7 @@ func genC19Base(t *rapid.T) c19Base {
 func TestC19(t *testing.T) {
 	r := core.Start(t, "C19")
 	defer r.Finish()
-	r.Rule = "base case: root and subordinate with pre-placed keys (RSA-1024/2048 preferred so that PKCS#1 v1.5 signatures are deterministic; also P-256, P-384, brainpoolP256r1), configured serials, absolute validity, SKI/AKI hash plus up to 3 further extensions each; six manipulation values drawn once (version from {0,1,2,3,4,-1,-128,127,128,255,256,65535,2^31,2^40+3}, three valid OIDs (one in three taken from the signature / key algorithm OIDs gopki itself implements), two byte values in every raw form up to 1500 bytes). Half of the bases reference a profile (so that profile merging runs). For each base ALL 64 subsets of the six keys are applied to the root or the subordinate and compared with the unmanipulated run of the same configuration. Oracle: named fields carry exactly the given value; every other field equals the unmanipulated certificate; key identifiers follow the bits actually in the certificates; unless the signature value itself is manipulated, the signature verifies over the raw manipulated TBS bytes with the real issuer key (taken from the issuer's PRIVATE KEY block) under the configured algorithm; outer-only manipulations leave the TBS bytes untouched; for a quarter of the subsets the manipulations are then removed from the configuration again and the regenerated certificate must equal the unmanipulated one. Non-trivial = subset of size >= 2 or a TBS-internal manipulation on the subordinate; distinct by base + subset."
+	r.Rule = "base case: root and subordinate with pre-placed keys (RSA-1024/2048 preferred so that PKCS#1 v1.5 signatures are deterministic; also P-256, P-384, brainpoolP256r1), configured serials, absolute validity, SKI/AKI hash plus up to 3 further extensions each; in a quarter of the bases the subordinate's artifact holds a certificate request instead of a private key; six manipulation values drawn once (version from {0,1,2,3,4,-1,-128,127,128,255,256,65535,2^31,2^40+3}, three valid OIDs (one in three taken from the signature / key algorithm OIDs gopki itself implements), two byte values in every raw form up to 1500 bytes). Half of the bases reference a profile (so that profile merging runs). For each base ALL 64 subsets of the six keys are applied to the root or the subordinate and compared with the unmanipulated run of the same configuration. Oracle: named fields carry exactly the given value; every other field equals the unmanipulated certificate; key identifiers follow the bits actually in the certificates; unless the signature value itself is manipulated, the signature verifies over the raw manipulated TBS bytes with the real issuer key (taken from the issuer's PRIVATE KEY block) under the configured algorithm; outer-only manipulations leave the TBS bytes untouched; subsets of outer manipulations only are applied to a directory that already holds the unmanipulated certificates (same to-be-signed bytes before and after); for a quarter of the subsets (and all outer-only ones) the manipulations are then removed from the configuration again and the regenerated certificate must equal the unmanipulated one and verify. Non-trivial = subset of size >= 2 or a TBS-internal manipulation on the subordinate; distinct by base + subset."
 	r.Assumptions = []string{"a manipulated AlgorithmIdentifier is exactly what the configuration gives: the OID and nothing else (no parameters)", "an absent version field reads as 0"}
 	wrap := func(c c19Case) *core.Failure {
 		bits := 0
@@ -299,7 +330,7 @@ func TestC19(t *testing.T) {
 		if bits >= 2 || (c.B.Target == "sub" && c.Mask&(1|8|16|32) != 0) {
 			key = fmt.Sprintf("%x|%s|%d|%+v", c.B.RootKey[:8], c.B.Target, c.Mask, c.B.Values)
 		}
-		r.Case(key, "target:"+c.B.Target, fmt.Sprintf("subset-size:%d", bits), "rootalg:"+c.B.RootAlg)
+		r.Case(key, "target:"+c.B.Target, fmt.Sprintf("subset-size:%d", bits), "rootalg:"+c.B.RootAlg, fmt.Sprintf("sub-request-based:%v", c.B.SubCSR))
 		r.Sample(fmt.Sprintf("subset-size:%d", bits), map[string]any{"target": c.B.Target, "mask": c.Mask, "config": string(func() []byte { w := c19World(c.B, c.Mask); return w.Ent(c.B.Target).Render() }())})
 		return checkC19(c)
 	}
